@@ -39,7 +39,8 @@ ASSUMPTIONS = ['float64 data on the enumerated grids (uniform and quadratically 
                'documented statuses: -2, -1, 0 or a positive integer; -1 must come with at least one newly masked breakpoint, other statuses with an unchanged mask',
                'status 0 is read as "success": whenever the least-squares problem on the surviving breakpoints is unique and well conditioned (oracle: full rank, cond <= 1e4) the returned spline must be that solution - also when a segment is empty but the rank is full through its neighbours, and after breakpoints were dropped',
                'repeated fits on one object: interior abscissae moved by +0.3/-0.2 of the local gap, same length and end points; each fit is judged against the dense solution of its own data']
-ASSUMPTIONS += ['y is finite everywhere; at zero-weight points it is altered by +1000 and replaced by huge finite sentinels (+-1e20, 1e25, +-1e30, +-float64 max, -9999), on all zero-weight points and on each one alone; NaN/inf at zero weight is outside the claim (HEAD raises ValueError from scipy there - see findings/C09.md)',
+ASSUMPTIONS += ['zero-weight data outside the breakpoint range: breakpoints laid over the positively weighted points only (as iterfit does) with 0..3 leading and 0..3 trailing zero weights; such points have no say in the fit',
+                'y is finite everywhere; at zero-weight points it is altered by +1000 and replaced by huge finite sentinels (+-1e20, 1e25, +-1e30, +-float64 max, -9999), on all zero-weight points and on each one alone; NaN/inf at zero weight is outside the claim (HEAD raises ValueError from scipy there - see findings/C09.md)',
                 'x, y and invvar are also handed over as strided views, columns of 2-D arrays, negative-stride views, big-endian, float32 (oracle on the rounded values, cond <= 100, tolerance 1e-5 + 3e-7*cond^2) and read-only arrays, one argument at a time and all three together']
 
 COND_MAX = 1e4
@@ -103,7 +104,19 @@ def rhs_vector(spec, x, w):
 def make_sset(case):
     from pydl.pydlutils.bspline import bspline
     x = data_x(case['fam'], case['n'])
+    if case.get('kfrom') == 'good':
+        # breakpoints laid over the positively weighted points only (what iterfit does): zero-weight data at the ends
+        # then lie OUTSIDE the breakpoint range at fit time
+        xg = x[weights(len(x), case['zero'], case['wpat']) > 0]
+        return x, bspline(xg.copy(), nord=case['k'], **knot_kwargs(xg, case['knots']))
     return x, bspline(x.copy(), nord=case['k'], **knot_kwargs(x, case['knots']))
+
+
+OUTSIDE = ':zero-weight-data-outside-breakpoint-range'
+
+
+def _tag_outside(case, bad):
+    return [(sg + OUTSIDE, msg) for sg, msg in bad] if case.get('kfrom') == 'good' else bad
 
 
 def classify(t, k, x, w):
@@ -160,9 +173,9 @@ def check_fit(case, pre=None):
             warnings.simplefilter('ignore')
             st, yfit = s.fit(x, y, w)
     except Exception as e:
-        return [('fit:well-posed:exception:%s@%s' % (type(e).__name__, where_raised(e.__traceback__)), repr(e))], 'bad:exception', True, None
+        return _tag_outside(case, [('fit:well-posed:exception:%s@%s' % (type(e).__name__, where_raised(e.__traceback__)), repr(e))]), 'bad:exception', True, None
     if not (_status_kind(st) == 0):
-        return [('fit:well-posed:status!=0', 'status %r (cond %.3g)' % (st, cond))], 'bad:status', True, None
+        return _tag_outside(case, [('fit:well-posed:status!=0', 'status %r (cond %.3g)' % (st, cond))]), 'bad:status', True, None
     c = np.asarray(s.coeff, dtype=np.float64)
     yf = np.asarray(yfit, dtype=np.float64)
     g = w > 0
@@ -192,7 +205,8 @@ def check_fit(case, pre=None):
     label = case['rhs'][0] + (':' + str(case['rhs'][1]) if case['rhs'][0] == 'sentinel' else '')
     if bad and case['rhs'][0] == 'sentinel' and bad[0][0] == 'fit:coeff!=lstsq':
         bad[0] = ('fit:coeff!=lstsq:huge-y-at-zero-weight', bad[0][1])
-    return bad, ('ok:fit:' + label + (':zw' if len(case['zero']) else ':full')) if not bad else 'bad:' + bad[0][0], nontrivial, c
+    bad = _tag_outside(case, bad)
+    return bad, ('ok:fit:' + label + (':outside' if case.get('kfrom') else ':zw' if len(case['zero']) else ':full')) if not bad else 'bad:' + bad[0][0], nontrivial, c
 
 
 def linear_verdict(case, cond, cg, cp, csum):
@@ -424,7 +438,8 @@ def check_illposed(case, pre=None):
             break
     else:
         bad.append(('fit:ill-posed:refit-chain-does-not-terminate', str(chain)))
-    out = 'ok:ill:' + trig[:12] + ':' + ','.join(str(v) for v in chain[:4]) if not bad else 'bad:' + bad[0][0]
+    bad = _tag_outside(case, bad)
+    out = 'ok:ill:' + ('outside:' if case.get('kfrom') else '') + trig[:12] + ':' + ','.join(str(v) for v in chain[:4]) if not bad else 'bad:' + bad[0][0]
     return bad, out
 
 
@@ -559,14 +574,16 @@ def tasks(tier):
                         if fam == 'uni' and KNOTS.index(kn) % 2 == 1:
                             for z0 in range(4):
                                 t.append(dict(d, maxzero=n, z0=z0, wpats=[0]))
-                    elif n == 8 or T:
+                    elif T:
                         t.append(dict(d, maxzero=n, wpats=[0, 1]))
+                    elif n == 8:
+                        t.append(dict(d, maxzero=4, runs=True, wpats=[0, 1]))     # quick: every subset of <= 4 zero weights plus every run; thorough: all 2^8
                     elif (KNOTS.index(kn) + k) % 2 == (fam == 'clu'):
                         # quick, n = 10: each (order, knot option) on one of the two grid families (thorough runs both, all subsets)
                         t.append(dict(d, maxzero=2, runs=True, wpats=[0, 1]))
     for fam in ('uni', 'clu'):
         for k in range(1, 6):
-            for kn in (KNOTS if T else KNOTS[1::2]):
+            for kn in (KNOTS if T else KNOTS[1 + (k + (fam == 'clu')) % 2::4]):
                 t.append({'part': 'F', 'fam': fam, 'n': 16, 'k': k, 'knots': kn, 'maxzero': 2 if T else 1, 'runs': True,
                           'wpats': [0, 1] if T else [0], 'tier': tier})
     return t
@@ -622,6 +639,7 @@ def run_task(task):
         for start in range(n):
             for ln in range(3, n - start + 1):
                 subsets.append(tuple(range(start, start + ln)))
+    subsets = list(dict.fromkeys(subsets))          # a short run is also a small subset: enumerate it once
     if 'z0' in task:
         # split the 2^n subsets of a 12-point grid over 4 shards by membership of points 0 and 1
         want = (bool(task['z0'] & 1), bool(task['z0'] & 2))
@@ -651,7 +669,7 @@ def run_task(task):
                         acc.violation(sig, case, msg)
                     continue
                 rhs = [['mono', d] for d in range(k)] + [['generic'], ['perturbed']]
-                if wpat == 0 or len(z) <= 1:
+                if (wpat == 0 or len(z) <= 1) and (len(z) <= 2 or task.get('tier') == 'thorough'):
                     rhs = [['unit', i] for i in range(n) if w[i] > 0] + rhs        # linearity basis (the weight pattern does not enter the clause)
                 if len(z):
                     Tt = task.get('tier') == 'thorough'
@@ -699,6 +717,40 @@ def run_task(task):
                     acc.case(_bsp.ckey(case), True, out, sample=None)
                     for sig, msg in bad:
                         acc.violation(sig, case, msg)
+        # ---- zero-weight data outside the breakpoint range: knots laid over the good points only, leading / trailing zero weights
+        Tt = task.get('tier') == 'thorough'
+        if task.get('z0', 0) != 0:
+            continue
+        for a, b in itertools.product(range(4), range(4)):
+            if a + b == 0 or a + b > n - 2:
+                continue
+            ends = list(range(a)) + list(range(n - b, n))
+            for z in [ends] + ([sorted(ends + [n // 2])] if Tt and n // 2 not in ends else []):
+                for wpat in (0, 1):
+                    w = weights(n, z, wpat)
+                    if int((w > 0).sum()) < 2:
+                        continue        # a single good point gives a zero-length breakpoint range (degenerate knots, not a fit question)
+                    base = dict(base0, zero=list(z), wpat=wpat, kfrom='good')
+                    try:
+                        _x, s2 = make_sset(dict(base))
+                        t2 = np.asarray(s2.breakpoints, dtype=np.float64)
+                    except Exception as e:
+                        acc.skip('outside-range layer: constructor raised ' + type(e).__name__)
+                        continue
+                    pre = classify(t2, k, x, w)
+                    if not pre[0]:
+                        case = dict(base, part='I')
+                        bad, out = check_illposed(case, pre)
+                        acc.case(_bsp.ckey(case), True, out, sample=None)
+                        for sig, msg in bad:
+                            acc.violation(sig, case, msg)
+                        continue
+                    for r in [['generic'], ['mono', k - 1], ['perturbed'], ['sentinel', '1e30', 'all']]:
+                        case = dict(base, part='F', rhs=r)
+                        bad, out, nt, c = check_fit(case, pre)
+                        acc.case(_bsp.ckey(case), nt, out, sample=None)
+                        for sig, msg in bad:
+                            acc.violation(sig, case, msg)
     return acc
 
 
